@@ -647,7 +647,17 @@ pub fn run_c14(a: &WorkerArgs) -> WorkerReport {
 
 pub fn run_c18(a: &WorkerArgs) -> WorkerReport {
     let p = gen::profile(18, a.thorough);
-    run_special(a, gen::case_strategy(&p), hasher_verdict, |c: &Case| c.hash64(), |c: &Case| c.ctor.init.len())
+    let mut rep = run_special(a, gen::case_strategy(&p), hasher_verdict, |c: &Case| c.hash64(), |c: &Case| c.ctor.init.len());
+    if a.worker % 100 == 0 {
+        // item types of other shapes than the 16-byte key of the histories
+        if let Some(f) = item_shape_battery() {
+            let path = format!("{}/C18-item-shape-battery.json", a.replay_dir);
+            let _ = std::fs::write(&path, "{\"item_shape_battery\":true}");
+            rep.violations.push(ViolationRec { signature: f.signature(), detail: f.detail, replay: path, step: 0 });
+        }
+        rep.extra.insert("item_shape_battery_scripts".into(), serde_json::json!(2 * 6 * 5));
+    }
+    rep
 }
 
 pub fn replay_special(prop: u8, text: &str) -> Result<Option<Failure>, String> {
@@ -662,6 +672,7 @@ pub fn replay_special(prop: u8, text: &str) -> Result<Option<Failure>, String> {
             let c: EqCase = serde_json::from_str(text).map_err(|e| format!("cannot parse case: {}", e))?;
             eq_verdict(&c, &mut st)
         }
+        18 if text.contains("item_shape_battery") => return Ok(item_shape_battery()),
         18 => {
             let c: Case = serde_json::from_str(text).map_err(|e| format!("cannot parse case: {}", e))?;
             hasher_verdict(&c, &mut st)
@@ -1092,4 +1103,143 @@ pub fn drop_glue_battery() -> Vec<Failure> {
     scripts!(DoublePriorityQueue, "DPQ", Key, i64, |i: u32| Key::new(i, 0), |p: i64| p, "Key, i64", pop_min);
     scripts!(DoublePriorityQueue, "DPQ", Key, Prio, |i: u32| Key::new(i, 0), |p: i64| Prio::new(p), "Key, Prio", pop_max);
     out
+}
+
+// ---------------------------------------------------------------------------------------------
+// C18: the same scripted history under every hasher for item types of different shapes (1 byte, 8 bytes,
+// a pair, a heap-allocated string, a boxed value, an 80-byte array). The history checks use one item type
+// of 16 bytes; code that is specialised on `size_of::<I>()` or on the representation of the key behaves
+// differently. Priorities are pairwise distinct, so the traces must be identical, not only up to ties.
+
+pub trait Shape: std::hash::Hash + Eq + Clone {
+    const NAME: &'static str;
+    fn mk(id: u32) -> Self;
+    fn id(&self) -> u32;
+}
+impl Shape for u8 {
+    const NAME: &'static str = "u8";
+    fn mk(id: u32) -> u8 { id as u8 }
+    fn id(&self) -> u32 { *self as u32 }
+}
+impl Shape for u64 {
+    const NAME: &'static str = "u64";
+    fn mk(id: u32) -> u64 { (id as u64) << 32 | 0xABCD }
+    fn id(&self) -> u32 { (*self >> 32) as u32 }
+}
+impl Shape for (u16, u16) {
+    const NAME: &'static str = "(u16, u16)";
+    fn mk(id: u32) -> (u16, u16) { ((id % 7) as u16, id as u16) }
+    fn id(&self) -> u32 { self.1 as u32 }
+}
+impl Shape for String {
+    const NAME: &'static str = "String";
+    fn mk(id: u32) -> String { format!("item-{:03}", id) }
+    fn id(&self) -> u32 { self[5..].parse().unwrap() }
+}
+impl Shape for Box<u32> {
+    const NAME: &'static str = "Box<u32>";
+    fn mk(id: u32) -> Box<u32> { Box::new(id) }
+    fn id(&self) -> u32 { **self }
+}
+impl Shape for [u64; 10] {
+    const NAME: &'static str = "[u64; 10]";
+    fn mk(id: u32) -> [u64; 10] { let mut a = [7u64; 10]; a[3] = id as u64; a }
+    fn id(&self) -> u32 { self[3] as u32 }
+}
+
+pub fn item_shape_battery() -> Option<Failure> {
+    use priority_queue::{DoublePriorityQueue, PriorityQueue};
+    fn pr(id: u32) -> i64 {
+        // pairwise distinct for ids below 199
+        (id as i64 * 37) % 199
+    }
+    macro_rules! script {
+        ($Q:ident, $I:ty, $hk:expr, $double:expr) => {{
+            let mut tr: Vec<(u32, i64)> = Vec::new();
+            let mut q: $Q<$I, i64, HB> = $Q::with_hasher(HB::of($hk));
+            for id in 0..8u32 {
+                tr.push((900, q.push(<$I as Shape>::mk(id), pr(id)).unwrap_or(-1)));
+            }
+            // a batch big enough for the rebuild strategy, new items first, then five clashes
+            let batch: Vec<($I, i64)> = (8..32u32).chain(2..7).map(|id| (<$I as Shape>::mk(id), pr(id) + if id < 8 { 1000 } else { 0 })).collect();
+            q.extend(batch);
+            tr.push((901, q.len() as i64));
+            for id in 0..36u32 {
+                tr.push((id, q.get_priority(&<$I as Shape>::mk(id)).copied().unwrap_or(-1)));
+            }
+            for id in (0..36u32).step_by(5) {
+                tr.push((902, q.change_priority(&<$I as Shape>::mk(id), pr(id) + 2000).unwrap_or(-1)));
+                tr.push((903, q.push_increase(<$I as Shape>::mk(id + 1), 1).unwrap_or(-1)));
+            }
+            for id in (1..36u32).step_by(4) {
+                tr.push((904, q.remove(&<$I as Shape>::mk(id)).map_or(-1, |x| x.1)));
+            }
+            let mut other: $Q<$I, i64, HB> = $Q::with_hasher(HB::of($hk));
+            for id in 28..44u32 {
+                other.push(<$I as Shape>::mk(id), pr(id) + 3000);
+            }
+            q.append(&mut other);
+            tr.push((905, q.len() as i64));
+            tr.push((906, other.len() as i64));
+            let c = q.clone();
+            tr.push((907, (c == q) as i64));
+            let mut ids: Vec<u32> = q.iter().map(|(i, _)| i.id()).collect();
+            ids.sort_unstable();
+            tr.extend(ids.iter().map(|i| (908, *i as i64)));
+            let mut k = 0;
+            loop {
+                let r = if $double && k % 2 == 1 { script!(@popmin q) } else { script!(@popmax q) };
+                k += 1;
+                match r {
+                    Some((i, p)) => tr.push((i.id(), p)),
+                    None => break,
+                }
+            }
+            tr
+        }};
+        (@popmax $q:ident) => { $q.pop_max_compat() };
+        (@popmin $q:ident) => { $q.pop_min_compat() };
+    }
+    trait PopCompat<I> {
+        fn pop_max_compat(&mut self) -> Option<(I, i64)>;
+        fn pop_min_compat(&mut self) -> Option<(I, i64)>;
+    }
+    impl<I: std::hash::Hash + Eq> PopCompat<I> for PriorityQueue<I, i64, HB> {
+        fn pop_max_compat(&mut self) -> Option<(I, i64)> { self.pop() }
+        fn pop_min_compat(&mut self) -> Option<(I, i64)> { self.pop() }
+    }
+    impl<I: std::hash::Hash + Eq> PopCompat<I> for DoublePriorityQueue<I, i64, HB> {
+        fn pop_max_compat(&mut self) -> Option<(I, i64)> { self.pop_max() }
+        fn pop_min_compat(&mut self) -> Option<(I, i64)> { self.pop_min() }
+    }
+    let hashers = [HasherKind::Fixed, HasherKind::Xx, HasherKind::Colliding, HasherKind::Coarse, HasherKind::OneShot];
+    macro_rules! shapes {
+        ($Q:ident, $double:expr, $kind:expr, $($I:ty),*) => {$(
+            {
+                let mut base: Option<Vec<(u32, i64)>> = None;
+                for hk in hashers {
+                    let r = catch_unwind(AssertUnwindSafe(|| script!($Q, $I, hk, $double)));
+                    let fail = |clause: &'static str, detail: String| Some(Failure { group: Group::Hasher, clause, step: 0, op: "history", detail, kind: $kind });
+                    match r {
+                        Err(_) => return fail("item_shape_panic", format!("the scripted history on {}<{}, i64> panicked under hasher {:?}: {}", $kind, <$I as Shape>::NAME, hk, last_panic_message())),
+                        Ok(t) => match &base {
+                            None => base = Some(t),
+                            Some(b) => {
+                                if *b != t {
+                                    let at = b.iter().zip(t.iter()).position(|(x, y)| x != y).unwrap_or(b.len().min(t.len()));
+                                    return fail(
+                                        "item_shape_trace_differs",
+                                        format!("the scripted history on {}<{}, i64> returns {:?} as its {}th value under hasher {:?} and {:?} under the fixed hasher (all priorities are distinct)", $kind, <$I as Shape>::NAME, t.get(at), at, hk, b.get(at)),
+                                    );
+                                }
+                            }
+                        },
+                    }
+                }
+            }
+        )*};
+    }
+    shapes!(PriorityQueue, false, "PQ", u8, u64, (u16, u16), String, Box<u32>, [u64; 10]);
+    shapes!(DoublePriorityQueue, true, "DPQ", u8, u64, (u16, u16), String, Box<u32>, [u64; 10]);
+    None
 }
